@@ -1187,7 +1187,7 @@ class BareServer():
         Timeout stale connections
         """
         self.servant.serviceConnects()
-        for ca, ix in self.servant.ixes.items():
+        for ca, ix in list(self.servant.ixes.items()):  # closeConnection deletes
             # check for and handle cutoff connections by client here
 
             if ca not in self.stewards:
@@ -1201,7 +1201,7 @@ class BareServer():
         """
         Service pending requestants and responders
         """
-        for ca, steward in self.stewards.items():
+        for ca, steward in list(self.stewards.items()):  # closeConnection deletes
             if not steward.waited:
                 steward.requestant.parse()
 
